@@ -32,10 +32,40 @@ def run(tier):
     tb += b
     ts += s
     c.cov["utf8_strings"] = n
+    serde_info(c)
     c.assumptions += ["addresses are compared as element offsets inside the caller's buffer; zero-sized elements have neither address nor contents, only lengths are compared for them",
                       "UTF-8 oracle: spec/Utf8.tla (Unicode Table 3-7 byte classes), self-checked by an ASSUME on boundary cases"]
     c.finish({"behaviours_replayed": tb, "replay_steps": ts, "exhaustive": True, "evaluations": tb, "distinct_nontrivial": nn,
               "rule": "every conversion/write chain of the stated depth over buffers of length 0/1/3 and all sub-slices x {u8,u64,ZST,3-byte struct}; every variant chain for Option/Result/tuples of arity 1-4; every byte string of length <= MaxLen over an alphabet hitting every UTF-8 class boundary"})
+
+
+def serde_info(c):
+    """Beyond the property (information only): spec/Serde.tla - the optional serde support of COption / CVec / CTupN /
+    ReprCString has the JSON image of the std type it stands for and reads it back.  Never an alarm."""
+    import json, subprocess
+    try:
+        wd = lib.workdir("c12")
+        out = os.path.join(wd, "serde.out")
+        lib.run_tlc("Serde", "Serde.cfg", name="serde_cases", workers=1, timeout=300, out_path=out)
+        cases = os.path.join(wd, "serde_cases.json")
+        if lib.extract_replays(out, cases) != 1:
+            c.cov["beyond_the_property_information_only_serde"] = "Serde.tla printed no cases"
+            return
+        crate = os.path.join(lib.HARNESS, "serdechk")
+        open(os.path.join(crate, "Cargo.lock"), "w").write(open(os.path.join(lib.HARNESS, "Cargo.lock.repo")).read())
+        td = os.path.join(lib.HARNESS, "target", "serdechk")
+        pb = subprocess.run(["cargo", "build", "--offline", "--target-dir", td], cwd=crate, capture_output=True, text=True, env=lib.cargo_env())
+        if pb.returncode != 0:
+            c.cov["beyond_the_property_information_only_serde"] = "the serde binding crate does not build against /repo: " + pb.stderr[-300:]
+            return
+        pr = subprocess.run([os.path.join(td, "debug", "serdechk"), cases], capture_output=True, text=True, timeout=300)
+        if pr.returncode != 0:
+            c.cov["beyond_the_property_information_only_serde"] = "serde binding crashed (rc=%s)" % pr.returncode
+            return
+        r = json.loads(pr.stdout.strip().splitlines()[-1])
+        c.cov["beyond_the_property_information_only_serde"] = {"cases": r["cases"], "disagreements_with_Serde_tla": r["failures"], "first": r["first_failures"][:3]}
+    except Exception as e:  # information only: nothing here may turn into an alarm or a tool error
+        c.cov["beyond_the_property_information_only_serde"] = "not evaluated: %s" % e
 
 
 def replay(path):
